@@ -152,17 +152,17 @@ var (
 )
 
 func SetProperty(id string) { mu.Lock(); rep.Property = id; mu.Unlock() }
-func Eval(n int64)           { mu.Lock(); rep.Evaluations += n; mu.Unlock() }
-func Leaves(n int64)         { mu.Lock(); rep.Leaves += n; mu.Unlock() }
-func Class(name string)      { mu.Lock(); rep.Classes[name]++; mu.Unlock() }
+func Eval(n int64)          { mu.Lock(); rep.Evaluations += n; mu.Unlock() }
+func Leaves(n int64)        { mu.Lock(); rep.Leaves += n; mu.Unlock() }
+func Class(name string)     { mu.Lock(); rep.Classes[name]++; mu.Unlock() }
 func ClassN(name string, n int64) {
 	mu.Lock()
 	rep.Classes[name] += n
 	mu.Unlock()
 }
-func Note(k, v string)          { mu.Lock(); rep.Notes[k] = v; mu.Unlock() }
+func Note(k, v string)            { mu.Lock(); rep.Notes[k] = v; mu.Unlock() }
 func Exhaustive(k string, b bool) { mu.Lock(); rep.Exhaustive[k] = b; mu.Unlock() }
-func Excluded(key string)       { mu.Lock(); rep.Excluded[key]++; mu.Unlock() }
+func Excluded(key string)         { mu.Lock(); rep.Excluded[key]++; mu.Unlock() }
 func Inconclusive(msg string) {
 	mu.Lock()
 	if len(rep.Inconclusive) < 50 {
